@@ -16,7 +16,8 @@ RULE = ("for every objective (Garland, Perturbed_Garland, DoubleSine and Perturb
         "each sample: f finite and f(x) <= fmax (exact comparison); per object: fmax attained at the documented "
         "maximiser (1e-9; Himmelblau's irrational maxima 1e-6), Garland's maximum over a fine grid in "
         "[fmax-0.003, fmax], repeated / re-ordered evaluation equal, object attributes and the input list unchanged, "
-        "wrong dimension -> ValueError; non-trivial = >= 1000 samples of one object")
+        "wrong dimension -> ValueError; the N(0,1) offset of the perturbed variants is also injected with rare extreme draws "
+        "(+-4.3, +-6, -37, 30); non-trivial = >= 1000 samples of one object")
 ASSUMPTIONS = [
     "an upper bound over a continuum cannot be established by sampling: the check can only refute it (sampled floats, pressure on maximisers / discontinuities / end points)",
     "DoubleSine parameters rho1, rho2 in [0.05, 1] (smaller values make the exponents overflow, as the property states)",
@@ -34,6 +35,24 @@ OBJS = ["Garland", "Perturbed_Garland", "DoubleSine", "Perturbed_DoubleSine", "D
 
 
 def make(case, rng):
+    inj = case.get("normal_draw")
+    if inj is None:
+        return _make(case, rng)
+    # the perturbed variants draw their offset from N(0,1) at construction: every real number is a legal outcome;
+    # rare extreme draws are injected (the real generator is still advanced)
+    orig = np.random.normal
+
+    def normal(loc=0.0, scale=1.0, size=None):
+        orig(loc, scale, size)
+        return loc + scale * inj if size is None else np.full(size, loc + scale * inj)
+    np.random.normal = normal
+    try:
+        return _make(case, rng)
+    finally:
+        np.random.normal = orig
+
+
+def _make(case, rng):
     name = case["obj"]
     np.random.seed(case["np_seed"])
     if name == "Garland":
@@ -96,6 +115,8 @@ def gen_cases(rng, tier, count=None):
                 c["params"] = P
             if "Rastrigin" in name:
                 c["params"] = {"d": 1 + r % 4}
+            if name.startswith("Perturbed") and r % 2 == 1:
+                c["normal_draw"] = float(rng.choice([-4.3, 4.3, -6.0, 6.5, -37.0, 30.0, 0.0, -1e-9, 2.0]))
             out.append(c)
     if count:
         out = out[:count]
